@@ -119,6 +119,24 @@ def generate(rng, tier):
                 shuf = rng.random() < 0.4
                 cs.append(mk_kfold(es, ns, shape, None, k, shuf, rng.randint(0, 99), bal, "exhaustive-occupancy"))
                 seen += 1
+    # sparse data on a fine block grid (survey lines): few points, thousands of mostly empty blocks, block ids spread over a wide range
+    for _ in range(4 if tier == "quick" else 60):
+        nside = rng.choice([70, 80, 100])
+        es, ns = [], []
+        for line in range(9):          # densely sampled lines (2-3 points per block along the line), far apart
+            start = rng.randint(0, (nside - 18) * 8) / 8.0
+            m = rng.randint(30, 44)
+            for k in range(m):
+                es.append(start + 0.40625 * k + 1 / 256)
+                ns.append(round((0.05 + 0.1 * line) * nside * 8) / 8 + 0.3 + 1 / 512)
+        es += [0.0, float(nside)]
+        ns += [0.0, float(nside)]        # corner points: the block grid spans nside x nside unit blocks
+        if rng.random() < 0.6:
+            cs.append(mk_shuffle(es, ns, (nside, nside), None, rng.randint(1, 3), rng.choice([0.25, 0.3, 0.4]), None, rng.randint(0, 10**6),
+                                 rng.randint(1, 3), "shuffle-sparse-fine-grid"))
+        else:
+            cs.append(mk_kfold(es, ns, (nside, nside), None, rng.randint(2, 5), rng.random() < 0.5, rng.randint(0, 10**6), rng.random() < 0.7,
+                               "kfold-sparse-fine-grid"))
     n = 150 if tier == "quick" else 3000
     for _ in range(n):
         u = rng.random()
@@ -157,7 +175,16 @@ def _splits(cv, es, ns):
     out = []
     for tr, te in cv.split(X):
         out.append([[int(v) for v in tr], [int(v) for v in te]])
+    # reproducibility on the SAME object: a fixed random_state must give the same splits on every pass
+    again = [[[int(v) for v in tr], [int(v) for v in te]] for tr, te in cv.split(X)]
+    if again != out:
+        raise RuntimeError("not reproducible: a second split() of the same object with the same fixed random_state differs")
     return out
+
+
+def _splits_fresh(cv, es, ns):
+    X = np.column_stack([es, ns])
+    return [[[int(v) for v in tr], [int(v) for v in te]] for tr, te in cv.split(X)]
 
 
 def impl(case):
@@ -175,9 +202,9 @@ def impl(case):
                 cv = vd.BlockKFold(spacing=spacing, shape=shape, n_splits=nsplits, shuffle=shuffle, random_state=seed, balance=balance)
                 s1 = _splits(cv, es, ns)
                 fb = any("Could not balance" in str(i.message) for i in w)
-            s2 = _splits(vd.BlockKFold(spacing=spacing, shape=shape, n_splits=nsplits, shuffle=shuffle, random_state=seed, balance=balance), es, ns)
+            s2 = _splits_fresh(vd.BlockKFold(spacing=spacing, shape=shape, n_splits=nsplits, shuffle=shuffle, random_state=seed, balance=balance), es, ns)
             if s1 != s2:
-                raise RuntimeError("not reproducible")
+                raise RuntimeError("not reproducible: an object used before on other data splits differently from a fresh one (same random_state)")
             return [fb, s1]
         return C.call(run)
     if fn == "shuffle":
@@ -186,8 +213,8 @@ def impl(case):
             mk = lambda: vd.BlockShuffleSplit(spacing=spacing, shape=shape, n_splits=nsplits, test_size=test_size,  # noqa: E731
                                               train_size=train_size, random_state=seed, balancing=balancing)
             s1 = _splits(mk(), es, ns)
-            if s1 != _splits(mk(), es, ns):
-                raise RuntimeError("not reproducible")
+            if s1 != _splits_fresh(mk(), es, ns):
+                raise RuntimeError("not reproducible: an object used before on other data splits differently from a fresh one (same random_state)")
             return s1
         return C.call(run)
     raise C.Infra("unknown fn")
